@@ -78,7 +78,7 @@ static void h_out(int ok) {
            cksum(tH, nH), cksum(tC, nC), cksum(t3, n3));
     if (ldmOn) { printf(" 1 "); w_out(&ldm.window); printf(" %u %u", ldm.loadedDictEnd, cksum_ldm(tL, nL)); }
     else printf(" 0");
-    printf(" %d\n", ok);
+    printf(" %d %d\n", ms.opt.litLengthSum == 0, ok);
 }
 
 /* exactness observer on the real pointers: is p - base an exact U32 index? */
@@ -140,6 +140,23 @@ static void ldm_chunks(const BYTE* istart, size_t srcSize, U32 windowLog) {
     }
 }
 
+/* index effect of ZSTD_buildSeqStore + block compressor (replicated glue: the compressor cannot run on
+ * unreadable memory): the btultra2 first pass of zstd_opt.c, and opt.litLengthSum becoming non-zero */
+static void block_search_effect(const BYTE* ip, size_t blockSize) {
+    if (blockSize < MIN_CBLOCK_SIZE + ZSTD_blockHeaderSize + 1 + 1) return;
+    {   U32 const curr = (U32)(ip - ms.window.base);
+        if (params.cParams.strategy == ZSTD_btultra2 && ZSTD_matchState_dictMode(&ms) == ZSTD_noDict
+            && ms.opt.litLengthSum == 0 && ms.window.dictLimit == ms.window.lowLimit && curr == ms.window.dictLimit
+            && blockSize > 8 /* ZSTD_PREDEF_THRESHOLD */) {
+            ms.window.base -= blockSize;
+            ms.window.dictLimit += (U32)blockSize;
+            ms.window.lowLimit = ms.window.dictLimit;
+            ms.nextToUpdate = ms.window.dictLimit;
+        }
+        if (params.cParams.strategy >= ZSTD_btopt) ms.opt.litLengthSum = 1;
+    }
+}
+
 static int do_continue(const BYTE* src, const ll* blocks, int nb, int frame) {
     size_t srcSize = 0; int i, ok = 1;
     for (i = 0; i < nb; i++) srcSize += (size_t)blocks[i];
@@ -154,6 +171,7 @@ static int do_continue(const BYTE* src, const ll* blocks, int nb, int frame) {
     if (ldmOn) ZSTD_window_update(&ldm.window, src, srcSize, 0);
     if (!frame) {
         ZSTD_overflowCorrectIfNeeded(&ms, &ws, &params, src, src + srcSize);
+        block_search_effect(src, srcSize);
         ok &= exact_idx(&ms.window, src) & exact_idx(&ms.window, src + srcSize);
         return ok;
     }
@@ -167,6 +185,7 @@ static int do_continue(const BYTE* src, const ll* blocks, int nb, int frame) {
             if (ms.nextToUpdate < ms.window.lowLimit) ms.nextToUpdate = ms.window.lowLimit;
             if (ldmOn && blockSize >= MIN_CBLOCK_SIZE + ZSTD_blockHeaderSize + 1 + 1)
                 ldm_chunks(ip, blockSize, params.cParams.windowLog);
+            block_search_effect(ip, blockSize);
             ok &= exact_idx(&ms.window, ip) & exact_idx(&ms.window, ip + blockSize);
             if (ldmOn) ok &= exact_idx(&ldm.window, ip + blockSize);
             ip += blockSize;
@@ -318,7 +337,7 @@ int main(void) {
         case 107: { /* "copy dictionary offsets" of ZSTD_resetCCtx_byCopyingCDict (replicated glue) */
                    w_in(&ms.window, a); ms.loadedDictEnd = (U32)a[6]; ms.nextToUpdate = (U32)a[7]; h_out(1); break; }
         case 108: { w_in(&ms.window, a); ms.loadedDictEnd = (U32)a[6]; ms.dictMatchState = a[7] ? &dummyDms : NULL;
-                   ms.forceNonContiguous = (int)a[8]; ms.nextToUpdate = (U32)a[9]; h_out(1); break; }
+                   ms.forceNonContiguous = (int)a[8]; ms.nextToUpdate = (U32)a[9]; ms.opt.litLengthSum = a[10] ? 0 : 1; h_out(1); break; }
         default: printf("-999\n");
         }
     }
